@@ -364,6 +364,15 @@ def _emit(emitter, ir, cfg):
                                                         emit_default_doc=cfg["emit_default_doc"], wrap_description=cfg["wrap_description"])
 
 
+def _dump_no_doc(tree):
+    """ast.dump with docstrings blanked (black re-indents docstrings; they are not part of the interface)"""
+    for n in ast.walk(tree):
+        if isinstance(n, (ast.Module, ast.ClassDef, ast.FunctionDef)) and n.body and isinstance(n.body[0], ast.Expr) \
+                and isinstance(n.body[0].value, ast.Constant) and isinstance(n.body[0].value.value, str):
+            n.body[0].value.value = ""
+    return ast.dump(tree)
+
+
 def run_case(case):
     """Runs in a forked child (core.guarded_map). Returns JSON-safe observations."""
     import argparse
@@ -402,6 +411,24 @@ def run_case(case):
     except SyntaxError as e:
         obs["reparse_equal"] = False
         obs["reparse_diff"] = ["SyntaxError", str(e)[:200]]
+    if case.get("via_file"):
+        # the same node through cdd.shared.emit.file.file (black included): the written text must be the same program
+        import os
+        import tempfile
+
+        import cdd.shared.emit.file
+
+        try:
+            with tempfile.TemporaryDirectory() as td:
+                fn = os.path.join(td, "emitted.py")
+                cdd.shared.emit.file.file(node, fn, mode="wt")
+                with open(fn) as fh:
+                    text = fh.read()
+            obs["file_same_ast"] = _dump_no_doc(ast.parse(text)) == _dump_no_doc(ast.parse(src))
+            if not obs["file_same_ast"]:
+                obs["file_text"] = text[:600]
+        except Exception as e:  # noqa
+            obs["file_same_ast"] = core.exc_name(e)
     ns = _scratch_ns()
     try:
         code = compile(src, "<emitted>", "exec", dont_inherit=True)  # no __future__ flags of this module
@@ -539,7 +566,7 @@ def canon_val(v):
     return ("e", nows(v["src"]))
 
 
-def canon_add(a, model=False):
+def canon_add(a):
     return {"flag": a["flag"], "type": a["type"], "choices": None if a["choices"] is None else [json.dumps(c, sort_keys=True) for c in a["choices"]],
             "action": a["action"], "help": nows(a["help"]), "required": a["required"],
             "default": None if a["default"] is None else json.dumps(a["default"], sort_keys=True)}
@@ -561,7 +588,7 @@ def cmp_ast(emitter, real, model):
         if real.get("posonly") or real.get("vararg") or f(real) != f(model):
             return {"real": f(real), "model": f(model)}
         return None
-    ra, ma = [canon_add(a) for a in real["adds"]], [canon_add(a, True) for a in model["adds"]]
+    ra, ma = [canon_add(a) for a in real["adds"]], [canon_add(a) for a in model["adds"]]
     if ra != ma or any(a["extra"] for a in real["adds"]):
         return {"real": ra, "model": ma}
     return None
@@ -622,14 +649,6 @@ def cmp_sem(emitter, obs, model):
     return None
 
 
-def _lit_src(c):
-    if c["k"] == "list":
-        return "[" + ",".join(_lit_src(x) for x in c["items"]) + "]"
-    if c["k"] in ("int", "float"):
-        return str(c["v"])
-    return repr(c.get("v"))
-
-
 # ----------------------------------------------------------------------------------------------
 # the property's oracle: observations vs the described interface
 # ----------------------------------------------------------------------------------------------
@@ -666,6 +685,8 @@ def oracle(chk, case, obs, desc, fail):
         err = obs.get("exec") or obs.get("populate")
         return fail(dict(base, field="exec", kind="raises", error=err), "executing the emitted source raised %s: %s" % (err, obs.get("exec_msg") or obs.get("populate_msg")))
     params = d["params"]
+    if "file_same_ast" in obs and obs["file_same_ast"] is not True:
+        fail(dict(base, field="file", kind="ast-differs"), "cdd.shared.emit.file.file wrote a different program than to_code: %s / %s" % (obs["file_same_ast"], obs.get("file_text")))
     if emitter in ("class", "pydantic"):
         exp_ann = [k for k, _ in desc["class"]["annotations"]]
         got_ann = [k for k, _ in obs["annotations"]]
@@ -876,6 +897,10 @@ def evaluate(chk, cases, obs_list, models, descs, stats):
             stats["worker_problem"] = stats.get("worker_problem", 0) + 1
             continue
         stats["emit:" + obs.get("emit", "?")] = stats.get("emit:" + obs.get("emit", "?"), 0) + 1
+        if "file_same_ast" in obs:
+            stats["via_file_checked"] = stats.get("via_file_checked", 0) + 1
+        if len(obs.get("parses", [])) > 1:
+            stats["parse_args_legal:" + ("ok" if "ok" in obs["parses"][1] else "exit")] = stats.get("parse_args_legal:" + ("ok" if "ok" in obs["parses"][1] else "exit"), 0) + 1
         # ---- unparse → re-parse (observed on every emitted AST) ----
         if "reparse_equal" in obs:
             stats["reparse_checked"] = stats.get("reparse_checked", 0) + 1
@@ -951,7 +976,8 @@ def make_domain_cases(r, d, emitters=EMITTERS, styles=STYLES):
     cases = []
     for e in emitters:
         for st in styles:
-            cases.append({"emitter": e, "cfg": gen_cfg(r, e, st), "ir": irj, "dir": d, "argvs": [[]], "probes": probes if e == "argparse" else []})
+            cases.append({"emitter": e, "cfg": gen_cfg(r, e, st), "ir": irj, "dir": d, "argvs": [[]], "probes": probes if e == "argparse" else [],
+                          "via_file": r.random() < 0.25})
     return cases
 
 
@@ -1019,6 +1045,15 @@ def run(chk: core.Check) -> int:
         "the sub-claim `ast.parse(ast.unparse(x)) == x` is a statement about CPython's printer/parser pair: observed on every emitted AST, not proved",
         "pydantic-shaped classes are executed against a stub `BaseModel` (pydantic is not installed): only the class-body semantics is checked",
     ]
+    chk.assumptions += [
+        "reading of `required flag agrees with the description` (the IR has no such field): an option must be supplied iff the parameter has no default "
+        "and its type is not Optional[...] (EmitIface.describedRequired)",
+        "reading of `type conversion agrees`: every legal command-line spelling of a value of the described type is accepted and converted to a value of "
+        "that type, every illegal one is rejected; equality of the value is demanded for int/str only (`bool('False')` is True in CPython: for bool only "
+        "the result type is demanded); Tuple[T, ...] and Callable[..., T] have no command-line reading: only choices/default/required/help are checked",
+        "a class attribute must be absent when the description has no default; the `return_type` attribute is the class form of the return entry",
+        "help/description text is compared with all whitespace removed (textwrap.fill may re-wrap it)",
+    ]
     if not core.DRIVER.exists():
         raise core.HarnessError("Lean driver not built")
     core.repo_on_path()
@@ -1026,7 +1061,7 @@ def run(chk: core.Check) -> int:
     stats: dict = {}
     check_classify(chk)
     # ---- domain stream ------------------------------------------------------------------------------------------
-    n_dom = 150 if chk.quick else 2500
+    n_dom = 150 if chk.quick else 5000
     cases = []
     tcs: dict = {}
     dks: dict = {}
@@ -1042,15 +1077,15 @@ def run(chk: core.Check) -> int:
         cases += make_domain_cases(rng, d)
     obs, models, descs = run_batch(chk, cases, stats)
     n_ast, n_sem, n_desc = evaluate(chk, cases, obs, models, descs, stats)
-    for c, o in zip(cases, obs):
-        nontrivial = bool(c["dir"]["params"]) and any(p["default"] is not None for p in c["dir"]["params"])
+    for c, o, ds in zip(cases, obs, descs):
+        nontrivial = bool(ds and ds.get("wf")) and any(p["default"] is not None for p in c["dir"]["params"])
         chk.count((c["emitter"], json.dumps(c["dir"], sort_keys=True), json.dumps(c["cfg"], sort_keys=True)), nontrivial)
     for c, o in list(zip(cases, obs))[:3]:
         chk.sample({"emitter": c["emitter"], "style": c["cfg"]["style"], "params": [[p["name"], render_typ(p["typ"]), p["default"]] for p in c["dir"]["params"]],
                     "src": (o or {}).get("src", "")[:400]})
     n_cases_dom = len(cases)
     # ---- wide stream (correspondence only) -------------------------------------------------------------------
-    n_wide = 250 if chk.quick else 4000
+    n_wide = 250 if chk.quick else 6000
     wcases = []
     for i in range(n_wide):
         irj = gen_wide(rng)
@@ -1067,13 +1102,17 @@ def run(chk: core.Check) -> int:
                "correspondence", n_sem + w_sem == 0, "%d disagreements" % (n_sem + w_sem))
     chk.oblige("correspondence 3: DIR.toIR (DTyp.toExpr) = the IR given to the real emitters (ast.parse of the rendered type strings)", "correspondence",
                n_desc == 0, "%d disagreements" % n_desc)
+    stale = [it["id"] for it in chk.kf.items if it["seen"] == 0]
+    for fid in stale:
+        chk.notes.append("STALE finding %s: its witness did not fail in this run" % fid)
+        print("STALE-FINDING: property=C04 %s was not observed in this run" % fid)
     chk.coverage["type_classes"] = dict(sorted(tcs.items()))
     chk.coverage["default_kinds"] = dict(sorted(dks.items()))
     chk.coverage["programs"] = {"domain": n_cases_dom, "wide": len(wcases)}
     chk.coverage["stats"] = dict(sorted(stats.items()))
     return chk.finish("domain: %d generated interface descriptions (0-5 parameters; scalars, Optional, Union, List, Literal[str...], Literal single / with int members, "
                       "Optional[Literal], Annotated[T, 'note'], Tuple[T, ...], Callable[..., T]; literal defaults incl. 0 / 0.0 / False / '' / None) + %d corner "
-                      "interfaces, each x {class, pydantic, function, argparse} x {rest, google, numpydoc} with random flags; non-trivial = has a parameter with a default; "
+                      "interfaces, each x {class, pydantic, function, argparse} x {rest, google, numpydoc} with random flags; non-trivial = well-formed per EmitIface.DIR.WF (the theorems' domain) and has a parameter with a default; "
                       "wide stream: %d IRs outside the domain (dict, nested, absent type, code-quoted defaults, *kwargs names) x 3 emitters, model-vs-code only"
                       % (n_dom, len(CORNERS), n_wide))
 
@@ -1099,6 +1138,18 @@ CORNERS = [
         _p("a", {"k": "optional", "s": "int"}), _p("b", {"k": "optional", "s": "str"}, {"k": "none"}), _p("c", {"k": "list", "s": "int"}),
         _p("d", {"k": "scalar", "s": "bool"}), _p("e", {"k": "scalar", "s": "int"}, {"k": "int", "v": -3})]},
     {"name": "F", "doc": "Summary.", "returns": None, "params": []},
+    # witnesses of the findings about quote-wrapped strings and the word None (re-verified on every run)
+    {"name": "F", "doc": "Summary.", "returns": None, "params": [
+        _p("a", {"k": "scalar", "s": "str"}, {"k": "str", "v": "'q'"}), _p("b", {"k": "scalar", "s": "str"}, {"k": "str", "v": "None"}),
+        _p("c", {"k": "literal", "members": [{"k": "s", "v": "'q'"}, {"k": "s", "v": "eps"}]}),
+        _p("d", {"k": "optional", "s": "int"}, {"k": "none"})]},
+    # the witnesses of the Lean negations
+    {"name": "F", "doc": "Summary.", "returns": None, "params": [_p("x", {"k": "scalar", "s": "int"}, doc="the x")]},
+    {"name": "F", "doc": "Summary.", "returns": None, "params": [_p("x", {"k": "scalar", "s": "int"}, {"k": "int", "v": 5})]},
+    {"name": "F", "doc": "Summary.", "returns": None, "params": [_p("x", {"k": "scalar", "s": "bool"})]},
+    {"name": "F", "doc": "Summary.", "returns": None, "params": [_p("x", {"k": "union", "members": ["int", "float"]}, {"k": "int", "v": 0})]},
+    {"name": "F", "doc": "Summary.", "returns": None, "params": [_p("x", {"k": "literal", "members": [{"k": "s", "v": "only"}]})]},
+    {"name": "F", "doc": "Summary.", "returns": None, "params": [_p("x", {"k": "literal", "members": [{"k": "s", "v": "a"}, {"k": "i", "v": 1}]})]},
 ]
 
 
